@@ -407,7 +407,9 @@ func (c04) Exec(cc core.Case, r *core.Rec) []core.Failure {
 		return fs
 	}
 	// WCNF
-	add := func(kind, detail string) { fs = append(fs, core.Failure{Sig: "ParseWCNF.Optimal/" + kind, Detail: detail}) }
+	add := func(kind, detail string) {
+		fs = append(fs, core.Failure{Sig: "ParseWCNF.Optimal/" + kind, Detail: detail})
+	}
 	hm := tt.Models(c.N, clausesToTT(c.Hard))
 	costOf := func(a uint32) int {
 		s := 0
@@ -520,3 +522,14 @@ func (c04) Exec(cc core.Case, r *core.Rec) []core.Failure {
 }
 
 func init() { core.Register(c04{}) }
+
+// EnumWCNF yields the WCNF texts of the C04 family (without channel variants).
+func EnumWCNF(tier string, yield func(text string, n int, hard, soft [][]int, softw []int) bool) {
+	c04{}.Enumerate(tier, 1, func(fam string, cc core.Case) bool {
+		m := cc.(MaxCase)
+		if m.API || m.Chan {
+			return true
+		}
+		return yield(m.Text, m.N, m.Hard, m.Soft, m.SoftW)
+	})
+}
